@@ -103,6 +103,12 @@ func (h *fileHistory) Write(s string) (int, error) {
 		return 0, fmt.Errorf("%w: %s", errOpenHistoryFile, err.Error())
 	}
 
+	// If a previous append was cut short (crash, full disk), the file does not
+	// end with a newline: start on a fresh line so that this entry stays readable.
+	if !endsWithNewline(h.file) {
+		data = append([]byte{'\n'}, data...)
+	}
+
 	_, err = f.Write(append(data, '\n'))
 	f.Close()
 
@@ -130,4 +136,26 @@ func (h *fileHistory) Len() int {
 // Dump returns the entire history file.
 func (h *fileHistory) Dump() interface{} {
 	return h.lines
+}
+
+// endsWithNewline returns false only if the file is not empty
+// and its last byte is not a newline.
+func endsWithNewline(filename string) bool {
+	f, err := os.Open(filename)
+	if err != nil {
+		return true
+	}
+	defer f.Close()
+
+	info, err := f.Stat()
+	if err != nil || info.Size() == 0 {
+		return true
+	}
+
+	last := make([]byte, 1)
+	if _, err := f.ReadAt(last, info.Size()-1); err != nil {
+		return true
+	}
+
+	return last[0] == '\n'
 }
